@@ -1,10 +1,11 @@
-\* liveness on 2 nodes: every fair run of every problem finishes (Termination); the safety
-\* invariants are checked by MC_Fixpoint.cfg.  No CONSTRAINT: a constraint could hide a cycle.
+\* liveness, quick tier: every fair run of every problem on 2 nodes with at most 2 edges finishes
+\* (Termination); the safety invariants are checked by MC_Fixpoint.cfg.  No CONSTRAINT: a
+\* constraint could hide a cycle.
 CONSTANTS
   NN = 2
-  MaxE = 3
+  MaxE = 2
   StartVals = {0, 1, 3}
-  Defaults = {0}
+  Defaults = {0, 1}
   Bounds <- BoundsInf1
 SPECIFICATION FairSpec
 PROPERTY Termination
